@@ -11,16 +11,18 @@ OUT=/verif/seeded/RESULTS.tsv
 for d in /verif/seeded/*/; do
   n=$(basename $d); [ -n "$FILTER" ] && [[ "$n" != *$FILTER* ]] && continue
   p=$(jq -r .property $d/meta.json)
+  # a change that only the thorough tier can reach says so in its meta.json ("tier": "thorough")
+  t=$(jq -r '.tier // empty' $d/meta.json); [ -z "$t" ] && t=$TIER
   if ! git -C $R apply --check $d/patch.diff 2>/dev/null; then
      if ! (cd $R && patch -p1 --dry-run -F3 -s < $d/patch.diff >/dev/null 2>&1); then printf "%s\t%s\t%s\tNO\t-\t-\n" $n $p $TIER >> $OUT; continue; fi
      (cd $R && patch -p1 -F3 -s < $d/patch.diff)
   else
      git -C $R apply $d/patch.diff
   fi
-  (cd /verif && ./check $p --tier $TIER > /tmp/seeded_$n.log 2>&1); rc=$?
+  (cd /verif && ./check $p --tier $t > /tmp/seeded_$n.log 2>&1); rc=$?
   git -C $R checkout -- . ; git -C $R clean -fdq -- packages examples; find $R -name "*.orig" -newer $d/meta.json -delete 2>/dev/null
   sig=$(grep -m1 "signature" /tmp/seeded_$n.log | sed 's/^ *signature //' | cut -d: -f1)
-  printf "%s\t%s\t%s\tyes\t%s\t%s\n" $n $p $TIER $rc "$sig" >> $OUT
+  printf "%s\t%s\t%s\tyes\t%s\t%s\n" $n $p $t $rc "$sig" >> $OUT
 done
 # evidence written while a seeded change was applied is not evidence about the tree
 git -C /verif checkout -- evidence 2>/dev/null
